@@ -79,7 +79,7 @@ pub fn assert_c10(c: &Phys, ev: &Eval, ctx: &mut Ctx) -> Result<(), Failure> {
     let mut shift_exact = vec![vec![Q::zero(); d]; nl];
     let inv_fro = lin::fro(&ev.invq);
     // normwise magnitude of L^-1 u before any cancellation, per component
-    let sscale: Vec<f64> = (0..d).map(|i| inv_fro * (0..nl).map(|l| uabs[l][i] * uabs[l][i]).sum::<f64>().sqrt()).collect();
+    let sscale: Vec<f64> = (0..d).map(|i| inv_fro * lin::norm2(&(0..nl).map(|l| uabs[l][i]).collect::<Vec<_>>())).collect();
     for l in 0..nl {
         for i in 0..d {
             let mut acc = Q::zero();
@@ -122,9 +122,9 @@ pub fn assert_c10(c: &Phys, ev: &Eval, ctx: &mut Ctx) -> Result<(), Failure> {
     let pref = (v / lam / 2.0).sqrt();
     // normwise magnitude of the Gaussian part of k before cancellation: structurally-zero entries of the computed
     // triangular inverse carry eps-level noise that multiplies O(1) components of q
-    let qt_fro = md.dec.qt.iter().flatten().map(|x| x * x).sum::<f64>().sqrt();
-    let qti_fro = md.dec.qti.iter().flatten().map(|x| x * x).sum::<f64>().sqrt();
-    let gscale: Vec<f64> = (0..d).map(|i| pref * qti_fro * (0..nl).map(|l| md.q[l][i] * md.q[l][i]).sum::<f64>().sqrt()).collect();
+    let qt_fro = lin::norm2(&md.dec.qt.iter().flatten().cloned().collect::<Vec<_>>());
+    let qti_fro = lin::norm2(&md.dec.qti.iter().flatten().cloned().collect::<Vec<_>>());
+    let gscale: Vec<f64> = (0..d).map(|i| pref * qti_fro * lin::norm2(&(0..nl).map(|l| md.q[l][i]).collect::<Vec<_>>())).collect();
     for l in 0..nl {
         for i in 0..d {
             let mut acc = Q::zero();
